@@ -10,6 +10,14 @@ The model follows `/repo/pkg/resource/{atomic,collection,value,opt}.go` (as of f
   `created` message; on the re-validation read of the create path existence is re-checked (the fix).
 * `Collection.Delete` = `read` (RLock) ▸ up to five attempts, each `check` (no lock) ▸ `Lock`; compare the
   item *pointer* with the one read; retry with the item just seen, or delete.
+* `Value.set` has its own `GetFn` (`r.value`, possibly nil, never an error) and its own `SaveFn`
+  (`r.value = message; r.changeTime = request.updateTime(r.clock)`); `Collection.Update`'s `SaveFn` stores a
+  fresh `*item` with `changeTime = writeRequest.updateTime(c.clock)`.  The stamp is modelled (`Config.stamp`)
+  together with the clock it is read from (`Env.clock`, read through the step counter `Config.tick`) and
+  `WithWriteTime`: the stamp is NOT a version (a frozen or coarse clock, or equal write times, repeat it).
+* `WithGenIDIfAbsent` with an empty id: `Collection.genID` runs inside the first `get` (RLock held, `rngMu`
+  held): up to ten candidates are drawn from the rng (`Env.cand`, read through the counter `Config.rng`),
+  the first one that is not stored is the id of this call from then on (the closure variable `id`).
 
 One step of a thread is exactly one lock-delimited section (or the lock-free change function).
 Messages are abstract: any type with decidable equality (`proto.Equal`) and a distinguished `empty`
@@ -54,6 +62,11 @@ structure UpdOp (M : Type) where
   check : Option M → Option Err
   /-- `interceptBefore ▸ masked merge ▸ interceptAfter` as a function of the old value -/
   f : Option M → M
+  /-- `WithWriteTime` -/
+  writeTime : Option Nat := none
+  /-- empty id + `WithGenIDIfAbsent`: `id` is chosen by `Collection.genID` during the first read; in a
+  program the `id` field of such a call is meaningless, in a record it is the generated id -/
+  genId : Bool := false
 
 /-- `Collection.Delete`. -/
 structure DelOp (M : Type) where
@@ -189,12 +202,27 @@ structure Entry (M : Type) where
   tid : Nat
   idx : Nat
   op : Op M
+  /-- the change time stamped by this commit (unused for Delete) -/
+  time : Nat := 0
+
+/-- What the model is parametric in besides the programs: the clock (`resource.Clock`, instant shown at the
+`k`-th step; the constructor read instant 0) and the id generator (`cand n i` = candidate decoded from the
+`n`-th `rng.Read`, which was the `i`-th try of its `genID` call, i.e. `6+i` bytes long). -/
+structure Env where
+  clock : Nat → Nat
+  cand : Nat → Nat → Nat
 
 structure Config (M : Type) where
   store : Store M
   nextRef : Nat
   log : List (Entry M)
   threads : Nat → Thread M
+  /-- `Value.changeTime` / `item.changeTime` per id -/
+  stamp : Nat → Nat
+  /-- steps executed so far: the instant the clock shows -/
+  tick : Nat
+  /-- `rng.Read` calls made so far -/
+  rng : Nat
 
 def replay (s₀ : SStore M) (log : List (Entry M)) : SStore M :=
   log.foldl (fun s e => (specStep e.op s).2) s₀
@@ -205,16 +233,36 @@ def Thread.finish (th : Thread M) (op : Op M) (res : Res M) (kind : Kind) (lin r
 def Config.setThread (c : Config M) (t : Nat) (th : Thread M) : Config M :=
   { c with threads := setAt c.threads t th }
 
+/-- `GenerateUniqueId` (id.go) as `Collection.genID` calls it: `fuel` tries left, this is try `i`;
+returns the id (none = attempts exhausted) and the rng position afterwards. -/
+def genID (cand : Nat → Nat → Nat) (present : Nat → Bool) : (fuel : Nat) → (i : Nat) → (rng : Nat) → Option Nat × Nat
+  | 0, _, rng => (none, rng)
+  | n + 1, i, rng =>
+    if present (cand rng i) then genID cand present n (i + 1) (rng + 1) else (some (cand rng i), rng + 1)
+
+/-- "handle empty ids, generating them": the call with its id filled in (none: generation failed, Aborted). -/
+def resolveId (env : Env) (c : Config M) (u : UpdOp M) : Option (UpdOp M) × Nat :=
+  if u.genId then
+    match genID env.cand (fun i => (c.store i).isSome) 10 0 c.rng with
+    | (some i, r) => (some { u with id := i }, r)
+    | (none, r) => (none, r)
+  else (some u, c.rng)
+
 /-- invoke + first locked section -/
-def stepIdle (c : Config M) (t : Nat) (th : Thread M) : Config M :=
+def stepIdle (env : Env) (c : Config M) (t : Nat) (th : Thread M) : Config M :=
   match th.prog with
   | [] => c
-  | .upd u :: rest =>
+  | .upd u₀ :: rest =>
     let now := c.log.length
     let th := { th with prog := rest, invAt := now, readAt := now }
-    match readUpd u (c.store u.id) with
-    | .error e => c.setThread t (th.finish (.upd u) (.error e) .refused now now)
-    | .ok (rd, created) => c.setThread t { th with pc := .uChange u rd created }
+    match resolveId env c u₀ with
+    | (none, r) =>
+      ({ c with rng := r }).setThread t (th.finish (.upd u₀) (.error .aborted) .raced now now)
+    | (some u, r) =>
+      let c := { c with rng := r }
+      match readUpd u (c.store u.id) with
+      | .error e => c.setThread t (th.finish (.upd u) (.error e) .refused now now)
+      | .ok (rd, created) => c.setThread t { th with pc := .uChange u rd created }
   | .del d :: rest =>
     let now := c.log.length
     c.setThread t { th with prog := rest, invAt := now, readAt := now, pc := .dTry d (c.store d.id) 0 }
@@ -226,17 +274,25 @@ def stepChange (c : Config M) (t : Nat) (th : Thread M) (u : UpdOp M) (rd : Opti
   | .error e => c.setThread t (th.finish (.upd u) (.error e) .refused th.readAt c.log.length)
   | .ok new => c.setThread t { th with pc := .uCommit u rd created new }
 
-/-- re-validation and save under the write lock -/
-def stepCommit (fixed : Bool) (c : Config M) (t : Nat) (th : Thread M) (u : UpdOp M) (rd : Option M)
+/-- `WriteRequest.updateTime` -/
+def UpdOp.updateTime (u : UpdOp M) (env : Env) (tick : Nat) : Nat :=
+  match u.writeTime with
+  | some w => w
+  | none => env.clock tick
+
+/-- re-validation and save under the write lock (`SaveFn`: the value and its change time) -/
+def stepCommit (fixed : Bool) (env : Env) (c : Config M) (t : Nat) (th : Thread M) (u : UpdOp M) (rd : Option M)
     (created : Bool) (new : M) : Config M :=
   let now := c.log.length
   if rd ≠ secondGet fixed u created (c.store u.id) then
     c.setThread t (th.finish (.upd u) (.error .aborted) .raced now now)
   else
-    { store := setAt c.store u.id (some (c.nextRef, new))
+    { c with
+      store := setAt c.store u.id (some (c.nextRef, new))
       nextRef := c.nextRef + 1
-      log := c.log ++ [⟨t, th.done.length, .upd u⟩]
-      threads := setAt c.threads t (th.finish (.upd u) (.ok (some new)) .committed now (now + 1)) }
+      log := c.log ++ [⟨t, th.done.length, .upd u, u.updateTime env c.tick⟩]
+      threads := setAt c.threads t (th.finish (.upd u) (.ok (some new)) .committed now (now + 1))
+      stamp := setAt c.stamp u.id (u.updateTime env c.tick) }
 
 /-- one attempt of `Collection.Delete`: checks on the item last seen, then the locked section -/
 def stepDel (c : Config M) (t : Nat) (th : Thread M) (d : DelOp M) (seen : Option (Nat × M)) (attempt : Nat) :
@@ -256,28 +312,35 @@ def stepDel (c : Config M) (t : Nat) (th : Thread M) (d : DelOp M) (seen : Optio
         else
           c.setThread t (th.finish (.del d) (.error .unavailable) .raced now now)
       else
-        { store := setAt c.store d.id none
+        { c with
+          store := setAt c.store d.id none
           nextRef := c.nextRef
-          log := c.log ++ [⟨t, th.done.length, .del d⟩]
+          log := c.log ++ [⟨t, th.done.length, .del d, 0⟩]
           threads := setAt c.threads t (th.finish (.del d) (.ok (some b)) .committed now (now + 1)) }
 
 /-- One atomic step of thread `t`. Every step is enabled: locks are only held inside a step. -/
-def step (fixed : Bool) (c : Config M) (t : Nat) : Config M :=
+def stepCore (fixed : Bool) (env : Env) (c : Config M) (t : Nat) : Config M :=
   let th := c.threads t
   match th.pc with
-  | .idle => stepIdle c t th
+  | .idle => stepIdle env c t th
   | .uChange u rd created => stepChange c t th u rd created
-  | .uCommit u rd created new => stepCommit fixed c t th u rd created new
+  | .uCommit u rd created new => stepCommit fixed env c t th u rd created new
   | .dTry d seen attempt => stepDel c t th d seen attempt
 
-def run (fixed : Bool) (c : Config M) (sched : List Nat) : Config M :=
-  sched.foldl (step fixed) c
+def step (fixed : Bool) (env : Env) (c : Config M) (t : Nat) : Config M :=
+  { stepCore fixed env c t with tick := c.tick + 1 }
+
+def run (fixed : Bool) (env : Env) (c : Config M) (sched : List Nat) : Config M :=
+  sched.foldl (step fixed env) c
 
 /-- Initial configuration: contents `s₀`, thread `t` runs `progs t`. -/
 def initCfg (s₀ : SStore M) (progs : Nat → List (Op M)) : Config M :=
   { store := fun i => (s₀ i).map (fun b => (0, b))
     nextRef := 1
     log := []
-    threads := fun t => ⟨progs t, .idle, [], 0, 0⟩ }
+    threads := fun t => ⟨progs t, .idle, [], 0, 0⟩
+    stamp := fun _ => 0
+    tick := 1
+    rng := 0 }
 
 end ScVerif.C02
